@@ -15,13 +15,19 @@ sys.path.insert(0, os.path.join(vlib.VERIF, "gen"))
 import progen  # noqa: E402
 import render  # noqa: E402
 import units  # noqa: E402
+import wideunits  # noqa: E402
+import typeprogs  # noqa: E402
 
 META = {
     "title": "Saved intermediate forms and separate compilation lose nothing",
     "level": "model_checking",
     "technique": "Units.tla (derivation paths over .ao/.fm/.al, splits) enumerated by TLC and replayed with the real compiler; "
                  "every step and comparison validated by TLC as a trace of Units (TraceUnits.tla); SIntReduce.tla (transcription of "
-                 "foamSIntReduce, Eval(Reduce(c)) = c) evaluates every re-expressed constant; AldorSem.tla gives the behaviour",
+                 "foamSIntReduce, Eval(Reduce(c)) = c) evaluates every re-expressed constant; AldorSem.tla gives the behaviour; "
+                 "FoamCodec.tla (byte codec of FOAM with the width choice as a step; node family replayed into foam.c by "
+                 "harness/foamcodec_drv.c, validated by TraceFoamCodec.tla; units that reach every field kind beyond one byte); "
+                 "SefoCodec.tla (type section: writer / reader / skipper; real sections validated by TraceSefoCodec.tla; "
+                 "library + client programs over every leaf kind of a type expression)",
     "design_ref": "DESIGN.md 3.11 (Units, SIntReduce), 5 C05",
     "level_text": "TLC enumerates every chain of at most 4 saved forms x {Q0,Q2,Q9} x final kind (294 paths) and every split of 3 movable "
                   "definitions x library form x levels x route (252) from Units.tla and checks Commute / Resave / Archive identity on the "
@@ -30,7 +36,16 @@ META = {
                   "generated from the source (bytes after the file-name line; tokens after each foamSIntReduce expression was replaced by "
                   "the value TLC computes with SIntReduce.tla), fm -> fm and archive/extract reproduce the bytes, and every run prints "
                   "what TLC derived from AldorSem.tla.  SIntReduce.tla is checked exhaustively at W = 8 (3-bit pieces) and on the "
-                  "64-bit boundary set incl. -2^63.",
+                  "64-bit boundary set incl. -2^63.  FoamCodec.tla: every field kind x {0,1,2,3,254,255,256,257,65535,65536} "
+                  "(about 960 nodes), every admissible format is read back by the tree, header and skipping reader; the real "
+                  "foamToBuffer / foamFrBuffer / foamGetProgHdrFrBuffer / foamConstvFrBuffer are driven through the same nodes "
+                  "and TLC decodes the real bytes; 12 kinds of generated units reach indices 255..260 (locals, parameters, "
+                  "globals, constants, lexicals, record fields, formats, labels, strings, names, big integers) and go through "
+                  ".ao / .al like every other program (TLC checks that every field kind it enumerates was reached).  "
+                  "SefoCodec.tla: 87 type sections over identifier / integer / float / string leaves, applications, "
+                  "declarations, nesting; skipper and reader agree with the writer; TLC reads the type section of every "
+                  "library the check builds; 43 type-expression shapes exported by TLC become library + client programs "
+                  "whose run must equal the one-unit program.",
     "level_note": "Trusted: AldorSem.tla, renderer, tokenisers of gen/units.py, gcc, ar, shipped libraries.  Floating-point constants are "
                   "not in the generated family (no floats in AldorSem/render; C19 covers their save/reload); they occur in the corpus "
                   "sample, where only equality between paths is decided (no independent expected output).  Lisp is compared as text, "
@@ -198,6 +213,197 @@ def corpus(chk, b, n, wd):
     return out
 
 
+
+# ------------------------------------------------------------------------------------------------------------------
+# the two codecs: FOAM bytes (class `width of indices and counts') and the type section (class `types seen by a client')
+
+WIDE_ABSTRACT = ["loc", "glo", "rec", "fmt", "clos", "label", "par", "str"]
+WIDE_TEXT = ["domlex", "multi", "name", "bint"]
+# levels at which a kind is performed in the quick tier besides the level the seed picks (the optimiser removes the
+# 260-field record of `rec' altogether above -Q0, and the record format of `fmt' is a local's format only at -Q0)
+WIDE_FIXED_LEVEL = {"rec": ["Q0"], "fmt": ["Q0"], "multi": ["Q0"], "clos": ["Q2"]}
+SECT_NAMES = ["syme", "foam", "fsyme", "pos", "postbl", "name", "kind", "file", "lazy", "type", "inline", "twins", "extend",
+              "doc", "foreign", "fileid", "macros"]
+
+
+def codec_models(chk, tier):
+    """TLC on FoamCodec.tla / SefoCodec.tla; returns (node cases, field kinds to reach, type-expression shapes)."""
+    quick = tier == "quick"
+    with concurrent.futures.ThreadPoolExecutor(max_workers=5) as ex:
+        ff = ex.submit(vlib.tlc, "FoamCodec", "FoamCodec", workers=2, timeout=600, coverage=True)
+        fa = ex.submit(vlib.tlc, "FoamCodec", "FoamCodecAsWritten", workers=1, timeout=600)
+        fs = ex.submit(vlib.tlc, "SefoCodec", "SefoCodec", workers=2, timeout=600, coverage=True)
+        fd = ex.submit(vlib.tlc, "FoamCodec", "FoamCodecDeep", workers=2, timeout=1200) if not quick else None
+        fx = ex.submit(vlib.tlc, "SefoCodec", "SefoCodecSharp", workers=1, timeout=600) if not quick else None
+        rf, ra, rs = ff.result(), fa.result(), fs.result()
+        rd = fd.result() if fd else None
+        rx = fx.result() if fx else None
+    for name, r in (("FoamCodec", rf), ("SefoCodec", rs), ("FoamCodecDeep", rd)):
+        if r is None:
+            continue
+        chk.add_tlc(name, r)
+        if r.violated:
+            chk.violation("%s.tla violates %s" % (name.replace("Deep", ""), r.violated), r.trace_text, key={"model": name, "inv": r.violated})
+    for act in ("Choose", "Write", "Read", "ExportCase"):
+        if rf.coverage.get(act, (0, 0))[0] == 0:
+            raise vlib.MachineryError("FoamCodec.tla: action %s never taken" % act)
+    for act in ("Write", "IndexA", "Fetch"):
+        if rs.coverage.get(act, (0, 0))[0] == 0:
+            raise vlib.MachineryError("SefoCodec.tla: action %s never taken" % act)
+    # the transcription of foamTagFormat without the exemptions: which tags get an inadmissible format (information; the
+    # real routine is judged by the replay below)
+    if ra.error:
+        raise vlib.MachineryError("FoamCodecAsWritten: " + str(ra.error))
+    chk.extra["foamTagFormat_as_transcribed"] = {"ChoiceOK_violated": bool(ra.violated),
+                                                 "counterexample": (ra.trace_text or "")[:600]}
+    if rx is not None:
+        if rx.error:
+            raise vlib.MachineryError("SefoCodecSharp: " + str(rx.error))
+        if not rx.violated:
+            raise vlib.MachineryError("SefoCodec.tla: IndexOK holds although the skipper does not know float literals (invariant not sharp)")
+    cases = [json.loads(l[5:]) for l in rf.printed if isinstance(l, str) and l.startswith("CASE ")]
+    fields = [json.loads(l[6:]) for l in rf.printed if isinstance(l, str) and l.startswith("FIELD ")]
+    shapes = [json.loads(l[5:]) for l in rs.printed if isinstance(l, str) and l.startswith("TYPE ")]
+    if len(cases) < 800 or len(fields) < 50 or len(shapes) < 30:
+        raise vlib.MachineryError("codec models exported %d cases / %d fields / %d shapes" % (len(cases), len(fields), len(shapes)))
+    cases.sort(key=lambda c: json.dumps(c["node"], sort_keys=True))
+    shapes.sort(key=lambda c: json.dumps(c, sort_keys=True))
+    return cases, fields, shapes
+
+
+def node_text(n):
+    if "v" in n:
+        return str(n["v"])
+    return "(" + " ".join([n["tag"]] + [node_text(x) for x in n["a"]]) + ")"
+
+
+NEVER_BUILT = ("TR",)        # FOAM_TR occurs as a type tag only (genfoam.c); no TR node is ever built
+
+
+def foam_replay(chk, b, cases, wd):
+    """The node family of FoamCodec.tla through the real routines of foam.c; TLC (TraceFoamCodec.tla) decides."""
+    h = vlib.harness_build("foamcodec_drv", [os.path.join(vlib.VERIF, "harness/foamcodec_drv.c")], b)
+    d = os.path.join(wd, "foamcodec")
+    os.makedirs(d, exist_ok=True)
+    cases = [c for c in cases if c["node"]["tag"] not in NEVER_BUILT]
+    with open(os.path.join(d, "cases.txt"), "w") as fh:
+        for c in cases:
+            fh.write(node_text(c["node"]) + "\n")
+    rc, o, e, to = vlib.run([h, "tags", os.path.join(d, "tags.ndjson")], cwd=d, timeout=60)
+    if rc != 0 or to:
+        raise vlib.MachineryError("foamcodec_drv tags: rc=%s %s" % (rc, e.decode(errors="replace")[-300:]))
+    rc, o, e, to = vlib.run([h, "run", os.path.join(d, "cases.txt"), os.path.join(d, "out.ndjson")], cwd=d, timeout=600)
+    if rc != 0 or to:
+        raise vlib.MachineryError("foamcodec_drv run: rc=%s %s" % (rc, e.decode(errors="replace")[-300:]))
+    tags = json.loads(open(os.path.join(d, "tags.ndjson")).read())
+    tags["argf"] = [list(x) for x in tags["argf"]]
+    evs = [tags]
+    lines = open(os.path.join(d, "out.ndjson")).read().splitlines()
+    if len(lines) != len(cases):
+        raise vlib.MachineryError("foamcodec_drv answered %d of %d cases" % (len(lines), len(cases)))
+    nil = {"tag": "Nil", "a": []}
+    for l, c in zip(lines, cases):
+        ev = json.loads(l)
+        ev["node"] = c["node"]
+        for k, v in (("tend", 0), ("back", nil), ("hdr", []), ("unit", False), ("wb", []), ("constc", -1), ("posv", []), ("fmts", nil)):
+            ev.setdefault(k, v)
+        evs.append(ev)
+    hook = os.environ.get("VERIF_C05_CORRUPT")
+    if hook == "codec":          # self-test: one recorded byte of one encoding changed
+        for ev in evs[1:]:
+            if ev["node"]["tag"] == "Lex" and len(ev["bytes"]) > 5:
+                ev["bytes"][1] ^= 1
+                break
+    trace = os.path.join(d, "trace.ndjson")
+    vlib.write_ndjson(trace, evs)
+    r = vlib.tlc("TraceFoamCodec", "TraceFoamCodec", workers=1, env={"TRACE": trace}, timeout=900)
+    chk.add_tlc("TraceFoamCodec", r)
+    if r.violated:
+        chk.violation("the recorded codec states violate %s of FoamCodec.tla" % r.violated, r.trace_text,
+                      key={"model": "TraceFoamCodec", "inv": r.violated})
+    summ = [json.loads(l[8:]) for l in r.printed if isinstance(l, str) and l.startswith("SUMMARY ")]
+    if not summ or summ[0]["events"] != len(evs):
+        raise vlib.MachineryError("TraceFoamCodec did not reach the end of the trace\n" + r.out[-2000:])
+    bads = {}
+    for l in r.printed:
+        if isinstance(l, str) and l.startswith("BAD "):
+            bad = json.loads(l[4:])
+            ev = evs[bad["l"] - 1]
+            if ev["ev"] == "Tags":
+                raise vlib.MachineryError("FoamCodec.tla and the compiled foam.h disagree: " + bad["why"])
+            bads.setdefault((ev["node"]["tag"], bad["why"].split(":")[0]), []).append((bad, ev))
+    for (tag, what), lst in sorted(bads.items()):
+        bad, ev = lst[0]
+        chk.violation("FOAM byte codec, %s node: %s (%d nodes of the family, first: %s)" % (tag, bad["why"], len(lst), node_text(ev["node"])[:160]),
+                      {"why": [x[0]["why"] for x in lst][:10], "nodes": [node_text(x[1]["node"])[:300] for x in lst[:10]],
+                       "bytes": ev["bytes"][:200], "read_back": node_text(ev["back"])[:300], "fault": ev.get("fault")},
+                      key={"codec": "foam", "tag": tag, "what": what})
+    for c in cases:
+        chk.case(("foamcodec", node_text(c["node"])[:120]), nontrivial=any(f != 1 for f in c["adm"]))
+    chk.traces += len(cases)
+    drift = [json.loads(l[6:]) for l in r.printed if isinstance(l, str) and l.startswith("DRIFT ")]
+    chk.extra["foam_codec"] = {"nodes_replayed": len(cases), "rejected": sum(len(v) for v in bads.values()),
+                               "encodings_differing_from_transcription": len(drift)}
+    chk.sample({"foam_codec_case": node_text(cases[len(cases) // 2]["node"])[:200], "bytes": evs[len(cases) // 2 + 1]["bytes"][:40]})
+
+
+def ao_section(data, name):
+    import struct
+    if len(data) < 165:
+        return None
+    numsect, = struct.unpack_from("<H", data, 10)
+    for k in range(min(numsect, 17)):
+        n, off, ln = struct.unpack_from("<BII", data, 12 + 9 * k)
+        if n < len(SECT_NAMES) and SECT_NAMES[n] == name:
+            return data[off:off + ln]
+    return None
+
+
+def type_sections(chk, b, libs, wd, need_leaves):
+    """libs: [(name, bytes of an .ao)].  TLC reads every type section with the reader and skipper of SefoCodec.tla."""
+    d = os.path.join(wd, "foamcodec")
+    tags = json.loads(open(os.path.join(d, "tags.ndjson")).read())
+    evs = [{"ev": "Tags", "ab": tags["ab"], "tf": tags["tf"], "tfclass": tags["tfclass"], "tfsymes": tags["tfsymes"]}]
+    for name, data in libs:
+        sec = ao_section(data, "type")
+        if sec is None:
+            raise vlib.MachineryError("no type section in %s" % name)
+        evs.append({"ev": "Section", "lib": name, "bytes": list(sec)})
+    trace = os.path.join(d, "sections.ndjson")
+    vlib.write_ndjson(trace, evs)
+    r = vlib.tlc("TraceSefoCodec", "TraceSefoCodec", workers=1, env={"TRACE": trace}, timeout=900)
+    chk.add_tlc("TraceSefoCodec", r)
+    if r.violated:
+        chk.violation("a recorded type section violates %s of SefoCodec.tla" % r.violated, r.trace_text,
+                      key={"model": "TraceSefoCodec", "inv": r.violated})
+    summ = [json.loads(l[8:]) for l in r.printed if isinstance(l, str) and l.startswith("SUMMARY ")]
+    if not summ or summ[0]["events"] != len(evs):
+        raise vlib.MachineryError("TraceSefoCodec did not reach the end of the trace\n" + r.out[-2000:])
+    seen = set()
+    for l in r.printed:
+        if isinstance(l, str) and l.startswith("BAD "):
+            bad = json.loads(l[4:])
+            ev = evs[bad["l"] - 1]
+            if ev["ev"] == "Tags":
+                raise vlib.MachineryError("SefoCodec.tla and the compiled absyn.h / tform.h disagree: " + bad["why"])
+            chk.violation("type section of %s: %s" % (ev["lib"], bad["why"]), {"lib": ev["lib"], "why": bad["why"], "bytes": ev["bytes"][:400]},
+                          key={"codec": "sefo", "what": bad["why"][:40]})
+        elif isinstance(l, str) and l.startswith("LEAVES "):
+            seen |= set(json.loads(l[7:])["leaves"])
+    if not set(need_leaves) <= seen:
+        raise vlib.MachineryError("type sections of the built libraries hold the leaf kinds %s only" % sorted(seen))
+    chk.traces += len(libs)
+    chk.extra["type_sections"] = {"validated": len(libs), "leaf_kinds": sorted(seen)}
+
+
+def wide_family(chk, quick):
+    """The units that drive indices and counts beyond one byte: abstract programs (expected output from AldorSem.tla) and
+    text units (equality between arrangements only)."""
+    n = 258 + (chk.seed % 5)
+    progs = [(k, wideunits.ABSTRACT[k](n, "wide_%s" % k)) for k in WIDE_ABSTRACT]
+    texts = [(k, "wide_%s" % k, wideunits.TEXT[k](n)) for k in WIDE_TEXT]
+    return n, progs, texts
+
 # ------------------------------------------------------------------------------------------------------------------
 def fault_sig(res):
     both = (res.get("out") or "") + (res.get("err") or "")
@@ -232,6 +438,8 @@ class Job(object):
         self.splits = []
         self.movable = []
         self.split_results = []
+        self.wide = None            # kind of wide unit (gen/wideunits.py)
+        self.types = None           # type-expression shapes of a library + client program (gen/typeprogs.py)
 
     def perform_level(self, q):
         t = self.trees[q]
@@ -246,15 +454,20 @@ class Job(object):
         s = self.splits[k]
         d = os.path.join(self.root, "split%d" % k)
         os.makedirs(d, exist_ok=True)
-        moved = [self.movable[i - 1] for i in s["lib"]]
-        libf = render.lib_closure(self.prog, [i for k, i in moved if k == "f"])
-        libd = [i for k, i in moved if k == "d"]
         libref = "plib.ao" if s["form"] == "ao" else "libplib.al"
-        lib_text, client_text = render.render_split(self.prog, libf, libref=libref, lib_doms=libd, lib_exns=bool(self.prog.get("exns")))
+        if self.types is not None:
+            lib_text, client_text, _ = typeprogs.render(self.types)
+            client_text = client_text % libref
+            res = {"split": s, "dir": d, "lib_ok": False, "run": None, "lib_throws": False, "lib_funs": [typeprogs.text(t) for t in self.types]}
+        else:
+            moved = [self.movable[i - 1] for i in s["lib"]]
+            libf = render.lib_closure(self.prog, [i for k, i in moved if k == "f"])
+            libd = [i for k, i in moved if k == "d"]
+            lib_text, client_text = render.render_split(self.prog, libf, libref=libref, lib_doms=libd, lib_exns=bool(self.prog.get("exns")))
+            res = {"split": s, "dir": d, "lib_ok": False, "run": None, "lib_throws": any(render._throws(self.prog["funs"][i]["body"]) for i in libf),
+                   "lib_funs": [self.prog["funs"][i]["name"] for i in libf] + [self.prog["doms"][i]["name"] for i in libd]}
         open(os.path.join(d, "plib.as"), "w").write(lib_text)
         open(os.path.join(d, "p.as"), "w").write(client_text)
-        res = {"split": s, "dir": d, "lib_ok": False, "run": None, "lib_throws": any(render._throws(self.prog["funs"][i]["body"]) for i in libf),
-               "lib_funs": [self.prog["funs"][i]["name"] for i in libf] + [self.prog["doms"][i]["name"] for i in libd]}
 
         def aldor(args, timeout=units.Tree.TIMEOUT):
             rc, o, e, to = vlib.aldor(self.b, args, d, timeout=timeout)
@@ -269,6 +482,8 @@ class Job(object):
             if r["rc"] != 0 or r["timeout"]:
                 res["run"] = dict(r, phase="compile")
                 return res
+        if self.types is not None:
+            res["lib_ao"] = open(os.path.join(d, "plib.ao"), "rb").read()
         if s["form"] == "al":
             rc, o, e, to = vlib.run(["ar", "cr", "libplib.al", "plib.ao"], cwd=d)
             if rc != 0:
@@ -317,10 +532,24 @@ def run(chk, tier):
     units.Tree.TIMEOUT = 25 if quick else 90
     # reading FOAM text is slow (about 1 s per 100 KB): the quick tier uses smaller programs
     progs = family(chk, nprog, sizes=(4, 6, 8) if quick else (6, 10, 16))
-    with concurrent.futures.ThreadPoolExecutor(max_workers=2) as ex:
+    wide_n, wide_progs, wide_texts = wide_family(chk, quick)
+
+    def codecs():
+        cases, fields, shapes = codec_models(chk, tier)
+        foam_replay(chk, b, cases, wd)
+        return fields, shapes
+    with concurrent.futures.ThreadPoolExecutor(max_workers=4) as ex:
         fm_ = ex.submit(models, chk, tier)
-        fam = progcheck.Family(chk, progs, "gen", workers=vlib.NCPU, timeout=1500)
+        fc_ = ex.submit(codecs)
+        # the wide units need many more steps of the abstract machine than the family's fuel (AldorSemWide.cfg)
+        fw_ = ex.submit(progcheck.Family, chk, [p for _, p in wide_progs], "wide", cfg="AldorSemWide", workers=4, timeout=1500)
+        fam = progcheck.Family(chk, progs, "gen", workers=max(4, vlib.NCPU - 8), timeout=1500)
         paths, splits = fm_.result()
+        famw = fw_.result()
+        need_fields, shapes = fc_.result()
+    if len(famw.replayable) != len(wide_progs):
+        raise vlib.MachineryError("AldorSem gave no final behaviour for the wide units %s" %
+                                  [p["id"] for _, p in wide_progs if p not in famw.replayable])
     direct = [p for p in paths if not p["chain"]]
     indirect = [p for p in paths if p["chain"]]
     per_prog = 28 if quick else len(indirect)
@@ -331,6 +560,29 @@ def run(chk, tier):
         jobs.append(Job(b, wd, c["id"], c["text"], None))
     if len(jobs) < (nprog + ncorpus) // 2:
         raise vlib.MachineryError("only %d programs are replayable" % len(jobs))
+    # units with wide indices / counts (class a) and library + client programs over the leaf kinds of type expressions (class b)
+    for k, p in wide_progs:
+        j = Job(b, wd, p["id"], render.render(p), famw.exp[p["id"]], prog=p)
+        j.wide = k
+        jobs.append(j)
+    for k, pid, text in wide_texts:
+        j = Job(b, wd, pid, text, None)
+        j.wide = k
+        jobs.append(j)
+    order = list(shapes)
+    rnd.shuffle(order)
+    groups = [order[i:i + 6] for i in range(0, len(order), 6)]
+    if quick:
+        groups = groups[:4]
+        rest = [x for x in order if not any(x in g for g in groups)]
+        for kind in ("int", "flt", "str", "id"):
+            # TLC checks at the end of the trace that every leaf kind was performed; the deal has to provide for it
+            if not any(kind in typeprogs.leaves(x) for g in groups for x in g):
+                groups[0][-1] = [x for x in rest if kind in typeprogs.leaves(x)][0]
+    for gi, g in enumerate(groups):
+        j = Job(b, wd, "types_%d" % gi, typeprogs.render(g)[2], None)
+        j.types = g
+        jobs.append(j)
 
     # every path is performed at least once across the programs: deal a shuffled deck round-robin
     deck = list(indirect)
@@ -339,9 +591,26 @@ def run(chk, tier):
     rnd.shuffle(sdeck)
     pi = si = 0
     xunit = {p["id"]: funs for p, funs in cross_unit_programs()}
+    wide_chains = [("ao",), ("ao", "al", "ao")]
+    full3 = [sp for sp in sdeck if sp["lib"] == [1, 2, 3] and not (sp["qclient"] == "Q9" and sp["qlib"] in ("Q2", "Q9"))]
+    ti = 0
     for j in jobs:
         chosen = {}
-        for _ in range(min(6 if j.pid in xunit else per_prog, len(deck))):
+        if j.wide is not None:
+            # through .ao and through an archive member: FOAM text and interpretation (thorough: C text and executable too)
+            k = (WIDE_ABSTRACT + WIDE_TEXT).index(j.wide)
+            lv = LEVELS if not quick else sorted(set(WIDE_FIXED_LEVEL.get(j.wide, []) + [LEVELS[(chk.seed + k) % 3]]))
+            if j.wide == "rec":
+                lv = ["Q0"] if quick else ["Q0", "Q2"]        # type inference needs 10 s and more for the 260-field record
+            fin = ("fm", "run") if quick else ("fm", "run", "c", "exe")
+            chosen = {(p["level"], tuple(p["chain"]), p["final"]): p for p in indirect
+                      if p["level"] in lv and tuple(p["chain"]) in wide_chains and p["final"] in fin
+                      and not (tuple(p["chain"]) != ("ao",) and p["final"] != "fm")}
+        elif j.types is not None:
+            for _ in range(3 if quick else 8):
+                j.splits.append(full3[ti % len(full3)])
+                ti += 1
+        for _ in range(0 if (j.wide is not None or j.types is not None) else min(6 if j.pid in xunit else per_prog, len(deck))):
             p = deck[pi % len(deck)]
             pi += 1
             chosen[(p["level"], tuple(p["chain"]), p["final"])] = p
@@ -353,7 +622,7 @@ def run(chk, tier):
             lib = list(range(1, len(j.movable) + 1))
             j.splits = [{"lib": lib, "form": "ao", "qlib": ql, "qclient": qc, "route": r}
                         for (ql, qc) in (("Q2", "Q9"), ("Q0", "Q0")) for r in ("run", "exe")]
-        elif j.prog is not None:
+        elif j.prog is not None and j.wide is None:
             el = render.lib_eligible(j.prog, throwers=bool(j.prog.get("exns")))
             if len(el) >= 3:
                 # the three movable definitions of Units.tla: top-level domains when the program has some, and functions
@@ -378,6 +647,8 @@ def run(chk, tier):
 
     import time
     tm = {"setup": round(time.time() - chk.t0, 1)}
+    if os.environ.get("VERIF_C05_TIMING"):
+        print("setup", tm, file=sys.stderr, flush=True)
     t1 = time.time()
     # ---- perform ----
     with concurrent.futures.ThreadPoolExecutor(max_workers=vlib.NCPU) as ex:
@@ -389,6 +660,8 @@ def run(chk, tier):
             j.split_results.append(f.result())
 
     tm["perform"] = round(time.time() - t1, 1)
+    if os.environ.get("VERIF_C05_TIMING"):
+        print("perform", tm, sorted((x + (j.pid,) for j in jobs for t in j.trees.values() for x in t.slow), reverse=True)[:8], file=sys.stderr, flush=True)
     t1 = time.time()
     # ---- read the generated texts; every re-expressed constant goes to TLC ----
     forms = {}
@@ -460,12 +733,22 @@ def run(chk, tier):
         info.append(rec)
     zero = [0, 0, 0, 0]
     nperf = 0
+    # what TLC enumerated as to be reached (FoamCodec.tla FIELD lines, leaf kinds of SefoCodec.tla); TraceUnits prints a GAP
+    # line for each one the performed paths / splits did not reach
+    emit({"ev": "Need", "fields": need_fields, "leaves": ["id", "int", "flt", "str"]}, None)
+    reached = {}
     for j in jobs:
         for p in j.paths:
             t = j.trees[p["level"]]
             chain = tuple(p["chain"])
             rec = {"job": j, "path": p}
             emit({"ev": "Begin", "prog": j.pid, "level": p["level"]}, rec)
+            if j.wide is not None and chain:
+                if (j.pid, p["level"]) not in reached:
+                    dtf = forms.get((j.pid, p["level"], (), "fm"))
+                    m = wideunits.measure(dtf.tree) if dtf is not None and dtf.tree is not None else {}
+                    reached[(j.pid, p["level"])] = [{"field": k, "max": v} for k, v in sorted(m.items())]
+                emit({"ev": "Reach", "fields": reached[(j.pid, p["level"])]}, rec)
             failed = False
             for i in range(len(chain)):
                 n = t.node(chain[:i + 1])
@@ -495,7 +778,10 @@ def run(chk, tier):
             s = sr["split"]
             rec = {"job": j, "splitres": sr, "res": sr["run"]}
             emit({"ev": "Begin", "prog": j.pid, "level": s["qclient"]}, rec)
-            emit({"ev": "Split", "lib": s["lib"], "form": s["form"], "qlib": s["qlib"], "ok": bool(sr["lib_ok"])}, rec)
+            se = {"ev": "Split", "lib": s["lib"], "form": s["form"], "qlib": s["qlib"], "ok": bool(sr["lib_ok"])}
+            if j.types is not None:
+                se["leaves"] = sorted(set().union(*[typeprogs.leaves(x) for x in j.types]))
+            emit(se, rec)
             if sr["lib_ok"]:
                 nperf += 1
                 emit({"ev": "LinkRun", "route": s["route"], "ok": True, "od": run_digest(sr["run"]),
@@ -508,7 +794,7 @@ def run(chk, tier):
     trace = os.path.join(wd, "units.ndjson")
     vlib.write_ndjson(trace, events)
     hook = os.environ.get("VERIF_C05_CORRUPT")          # self-test: corrupt one recorded field (see SELFTEST_NOTES)
-    if hook:
+    if hook and hook != "codec":
         corrupt_trace(trace, hook)
     r = vlib.tlc("TraceUnits", "TraceUnits", workers=1, env={"TRACE": trace}, timeout=900)
     chk.add_tlc("TraceUnits", r)
@@ -521,6 +807,28 @@ def run(chk, tier):
     bads = [json.loads(l[4:]) for l in r.printed if isinstance(l, str) and l.startswith("BAD ")]
     for bad in bads:
         report(chk, bad, events[bad["l"] - 1], info[bad["l"] - 1], forms, values, huge)
+    gaps = [json.loads(l[4:]) for l in r.printed if isinstance(l, str) and l.startswith("GAP ")]
+    chk.extra["wide_units"] = {"items": wide_n, "kinds": WIDE_ABSTRACT + WIDE_TEXT,
+                               "reached": {"%s@%s" % k: {x["field"]: x["max"] for x in v if x["max"] > 255} for k, v in sorted(reached.items())}}
+    if gaps:
+        raise vlib.MachineryError("the performed units / splits do not reach what the codec specifications enumerate: %s" % gaps[:8])
+    # ---- the type section of every library built for the type-expression programs, read by TLC ----
+    libs = []
+    for j in jobs:
+        if j.types is not None:
+            for k, sr in enumerate(j.split_results):
+                if sr.get("lib_ao"):
+                    libs.append(("%s/split%d/plib.ao" % (j.pid, k), sr["lib_ao"]))
+    seen_libs, uniq = set(), []
+    for name, data in libs:
+        sec = ao_section(data, "type")
+        if sec is not None and sec not in seen_libs:
+            seen_libs.add(sec)
+            uniq.append((name, data))
+    if uniq:
+        type_sections(chk, b, uniq[:6 if quick else 40], wd, ["id", "int", "flt", "str"])
+    chk.extra["type_programs"] = {"groups": len([j for j in jobs if j.types is not None]),
+                                  "shapes_in_model": len(shapes), "shapes_performed": sum(len(j.types) for j in jobs if j.types is not None)}
 
     # ---- evidence ----
     drift = []
@@ -562,7 +870,10 @@ def run(chk, tier):
     chk.rule = ("paths exported by TLC from Units.tla (chain of <= 4 saved forms x level x final kind), dealt round-robin over generated "
                 "programs with extreme constants + corpus programs so that every path is performed; splits exported by TLC (subset of 3 "
                 "movable definitions x ao/al x levels x route); a case is (program, level, chain, final) or (program, split); "
-                "non-trivial = goes through at least one saved form")
+                "non-trivial = goes through at least one saved form.  Codec classes: the node family of FoamCodec.tla (field kind x "
+                "boundary value; a case per node, non-trivial = a format other than one byte is admissible); 12 kinds of units "
+                "with 258..262 items reaching every field kind TLC lists (Need / Reach / GAP accounting in TraceUnits.tla); "
+                "type-expression shapes exported by SefoCodec.tla dealt into library + client programs")
     chk.exhaustive = not quick
     chk.assumptions += ["reload commands repeat the -Q option of the compilation and add -laxllib",
                         "a re-saved .fm gets another file name (the driver refuses to overwrite its input) and is compared byte-wise",
@@ -576,7 +887,9 @@ def report(chk, bad, ev, rec, direct_forms, values, huge):
     why = bad["why"]
     what = why.split(":")[0].replace(" ", "-")
     res = rec.get("res")
-    key = {"what": what, "program_kind": "generated" if j.prog is not None else "corpus"}
+    key = {"what": what, "program_kind": "wide" if j.wide else "types" if j.types is not None else "generated" if j.prog is not None else "corpus"}
+    if j.wide:
+        key["wide"] = j.wide
     detail = {"event": ev, "why": why, "program_id": j.pid, "source": j.text[:30000]}
     if "path" in rec and "splitres" not in rec:
         p = rec["path"]
@@ -606,6 +919,9 @@ def report(chk, bad, ev, rec, direct_forms, values, huge):
         key.update(split_form=s["form"], route=s["route"], qlib=s["qlib"], qclient=s["qclient"],
                    cross_inline=(s["qclient"] == "Q9" and s["qlib"] in ("Q2", "Q9")), lib_throws=bool(rec["splitres"].get("lib_throws")))
         detail.update(split=s, lib_funs=rec["splitres"]["lib_funs"])
+        if j.types is not None:
+            lt, ct, _ = typeprogs.render(j.types)
+            detail.update(library=lt[:20000], client=(ct % ("plib.ao" if s["form"] == "ao" else "libplib.al"))[:20000])
     if res is not None:
         if ev["ev"] in ("Final", "LinkRun") and ev.get("ok") and res.get("phase"):
             c = progcheck.classify(res, j.exp) if j.exp is not None else None
